@@ -183,6 +183,7 @@ run = function(id, ...)
     local c = cmds[pc]
     local op, a, b = c[1], c[2], c[3]
     if op == "create" then cos[a] = coroutine.create(function(...) return run(a, ...) end)
+    elseif op == "gobody" then cos[a] = coroutine.create(coroutine.yield)
     elseif op == "wrap" then local f f = coroutine.wrap(function(...) cos[a] = coroutine.running() return run(a, ...) end) cos[-a] = f
     elseif op == "resume" then
       if cos[-a] and b == 1 then emit("w", id, a, pcall(cos[-a], id * 10 + pc))
@@ -261,6 +262,9 @@ func genCoTree(r *lib.Rand) string {
 			}
 			if r.Chance(25) {
 				cmds = append(cmds, coCmd{op: "wrap", a: k})
+			} else if r.Chance(8) {
+				// the body is a Go function (coroutine.yield itself): it has no frame to continue, the second resume ends it
+				cmds = append(cmds, coCmd{op: "gobody", a: k})
 			} else {
 				cmds = append(cmds, coCmd{op: "create", a: k})
 			}
